@@ -438,4 +438,53 @@ def r1_8(ctx: Ctx) -> RuleResult:
     return rr
 
 
-RULES = [r1_1, r1_2, r1_3, r1_4, r1_5, r1_6, r1_7, r1_8]
+def r1_9(ctx: Ctx) -> RuleResult:
+    """The selector evaluates the bounds the query wrote: what `SliceSelector.__init__` / `IndexSelector.__init__`
+    store must be the parsed start / stop / step / index for *every* value - in particular an explicit step of 0
+    (which selects nothing) must not be turned into the default.  The stored expression is constant-folded on the
+    values 0, 1, -1, 2, -3 and None."""
+    from sa.consteval import NotConst
+    from sa.consteval import Scope
+
+    rr = RuleResult("R1.9", "selectors store the parsed bounds unchanged", floor=4)
+    samples = [0, 1, -1, 2, -3, None]
+    for cname, field, params in (("SliceSelector", "self.slice", ["start", "stop", "step"]), ("IndexSelector", "self.index", ["index"])):
+        cls = ctx.repo.require_class(f"jsonpath.selectors.{cname}")
+        init = cls.methods.get("__init__")
+        if init is None:
+            raise AnalysisError(f"{cname}.__init__ not found")
+        stores = [n for n in ast.walk(init.node) if isinstance(n, ast.Assign) and any(path_of(t) == field for t in n.targets)]
+        if len(stores) != 1:
+            raise AnalysisError(f"R1.9: {cname}.__init__ does not store {field} exactly once")
+        v = stores[0].value
+        if cname == "SliceSelector":
+            if not (isinstance(v, ast.Call) and callee_name(v) == "slice" and len(v.args) == 3 and not v.keywords):
+                raise AnalysisError(f"R1.9: `{short(stores[0])}` is not slice(start, stop, step)")
+            exprs = list(v.args)
+        else:
+            exprs = [v]
+        for p, e in zip(params, exprs):
+            bad = []
+            for val in samples:
+                if val is None and p == "index":
+                    continue
+                try:
+                    got = ctx.folder.eval(e, Scope(ctx.folder, init.module, init.cls, {p: val}))
+                except NotConst as err:
+                    raise AnalysisError(f"R1.9: the stored {p} `{short(e)}` cannot be folded for {p}={val!r}: {err}") from err
+                ok = got == val and type(got) is type(val)
+                if val is None and p == "step" and got in (None, 1):
+                    ok = True  # an omitted step is a step of 1
+                if not ok:
+                    bad.append((val, got))
+            if bad:
+                val, got = bad[0]
+                rr.bad(init, stores[0], f"{cname} stores `{short(e)}` for `{p}`: a query that writes {p} = {val!r} is evaluated "
+                       f"with {got!r}" + (" (a step of 0 must select nothing, RFC 9535 2.3.4.2.2)" if p == "step" and val == 0 else ""),
+                       construct=f"{cname}.{p} stored as {short(e)}")
+            else:
+                rr.ok(init.loc(stores[0]), f"{cname}: `{p}` is stored unchanged ({len(samples)} values folded)")
+    return rr
+
+
+RULES = [r1_1, r1_2, r1_3, r1_4, r1_5, r1_6, r1_7, r1_8, r1_9]
